@@ -328,6 +328,94 @@ pub fn texts(tier: Tier) -> Vec<&'static str> {
     }
 }
 
+/// Reported offsets through the text-selection API: for every container range and every range embedded in it, in all
+/// four modes: `inner.relative_offset(container, mode)` must exist, be well-formed, resolve inside the container to the
+/// inner range again, and `container.absolute_offset(that)` must be the inner range in resource coordinates; for a range
+/// that is not embedded in the container there is no relative offset.
+pub fn relative_api(rep: &Reporter, tier: Tier) -> (u64, u64) {
+    let evals = AtomicU64::new(0);
+    let cases = AtomicU64::new(0);
+    let modes = [("BeginBegin", OffsetMode::BeginBegin), ("BeginEnd", OffsetMode::BeginEnd), ("EndBegin", OffsetMode::EndBegin), ("EndEnd", OffsetMode::EndEnd)];
+    for text in texts(tier) {
+        let len = text.chars().count();
+        let mut store = AnnotationStore::new(Config::default());
+        store.add_resource(TextResourceBuilder::new().with_id("r").with_text(text)).expect("resource");
+        let res = store.resource("r").expect("resource r");
+        let ranges = all_ranges(len);
+        ranges.par_iter().enumerate().for_each(|(ci, c)| {
+            let csel = match res.textselection(&Offset::simple(c.0, c.1)) {
+                Ok(s) => s,
+                Err(_) => return,
+            };
+            for (ii, i) in ranges.iter().enumerate() {
+                let isel = match res.textselection(&Offset::simple(i.0, i.1)) {
+                    Ok(s) => s,
+                    Err(_) => continue,
+                };
+                let embedded = c.0 <= i.0 && i.1 <= c.1;
+                for (mname, mode) in modes {
+                    cases.fetch_add(1, Ordering::Relaxed);
+                    evals.fetch_add(1, Ordering::Relaxed);
+                    let geometry = if !embedded {
+                        "not-embedded"
+                    } else if i.0 == i.1 {
+                        "zero-width"
+                    } else if *i == *c {
+                        "whole"
+                    } else if i.0 == c.0 {
+                        "at-begin"
+                    } else if i.1 == c.1 {
+                        "at-end"
+                    } else {
+                        "inside"
+                    };
+                    let fail = |symptom: &str, detail: String| {
+                        rep.fail(
+                            &format!("relative-api|mode={}|{}|{}", mname, geometry, symptom),
+                            ((len * 1000 + ci) * 1000 + ii) as u64,
+                            || format!("text={:?} container={:?} inner={:?} mode={}: {}", text, c, i, mname, detail),
+                            || json!({"relative_api": {"text": text, "container": [c.0, c.1], "inner": [i.0, i.1], "mode": mname}}),
+                        );
+                    };
+                    let got = match catch(|| isel.relative_offset(&csel, mode)) {
+                        Ok(g) => g,
+                        Err(p) => {
+                            fail(&format!("panic:{}", msg_class(&p)), "relative_offset panicked".into());
+                            continue;
+                        }
+                    };
+                    match (embedded, got) {
+                        (false, None) => {}
+                        (false, Some(o)) => fail("offset-for-non-embedded", format!("relative_offset = {:?} although the range is not inside the container", o)),
+                        (true, None) => fail("no-offset-for-embedded", "relative_offset = None although the range lies inside the container".into()),
+                        (true, Some(o)) => {
+                            let bad_sign = matches!(o.begin, Cursor::EndAligned(x) if x > 0) || matches!(o.end, Cursor::EndAligned(x) if x > 0);
+                            if bad_sign {
+                                fail("positive-end-aligned-cursor", format!("reported {:?}", o));
+                                continue;
+                            }
+                            evals.fetch_add(2, Ordering::Relaxed);
+                            match catch(|| csel.textselection(&o).map(|t| (t.begin(), t.end()))) {
+                                Ok(Ok(r)) if r == *i => {}
+                                Ok(Ok(r)) => fail("re-resolves-differently", format!("reported {:?}, which resolves inside the container to {:?}", o, r)),
+                                Ok(Err(e)) => fail("reported-offset-refused", format!("reported {:?}, refused with {}", o, e)),
+                                Err(p) => fail(&format!("panic:{}", msg_class(&p)), format!("resolving the reported {:?} panicked", o)),
+                            }
+                            match catch(|| csel.absolute_offset(&o)) {
+                                Ok(Ok(a)) if a == Offset::simple(i.0, i.1) => {}
+                                Ok(Ok(a)) => fail("absolute-offset-differs", format!("reported {:?}; absolute_offset gives {:?}", o, a)),
+                                Ok(Err(e)) => fail("absolute-offset-refused", format!("reported {:?}; absolute_offset refused it with {}", o, e)),
+                                Err(p) => fail(&format!("panic:{}", msg_class(&p)), format!("absolute_offset({:?}) panicked", o)),
+                            }
+                        }
+                    }
+                }
+            }
+        });
+    }
+    (cases.load(Ordering::Relaxed), evals.load(Ordering::Relaxed))
+}
+
 pub fn run(rep: &Reporter) -> Coverage {
     let evals = AtomicU64::new(0);
     let maxdepth = rep.tier.pick(1, 3);
@@ -364,6 +452,7 @@ pub fn run(rep: &Reporter) -> Coverage {
         let curs = cursors(span, parents.len() <= 1);
         check_container(&ctx, text, parents, &curs, i as u64);
     });
+    let (rcases, revals) = relative_api(rep, rep.tier);
     let mut cov = Coverage::default();
     let total: u64 = jobs
         .iter()
@@ -374,12 +463,12 @@ pub fn run(rep: &Reporter) -> Coverage {
             n * n
         })
         .sum();
-    cov.states = total;
-    cov.transitions = evals.load(Ordering::Relaxed);
+    cov.states = total + rcases;
+    cov.transitions = evals.load(Ordering::Relaxed) + revals;
     cov.evaluations = cov.transitions;
     cov.traces_validated = cov.transitions;
     cov.distinct_nontrivial = jobs.iter().filter(|(_, p)| !p.is_empty()).count() as u64;
-    cov.rule = "for every text, every chain of parent ranges up to the nesting depth (each level every sub-range of the previous one) and every ordered pair of cursors (begin-aligned 0..len+2, end-aligned -(len+2)..+2, plus usize::MAX/2, isize::MIN, isize::MAX at depth <= 1): annotate (TextSelector at depth 0, AnnotationSelector with relative offset below), FindText::textselection and text_by_offset on the resource / on the sub-selection; accepted exactly when the resolved cursors satisfy 0 <= begin <= end <= len(container), then text = the codepoint slice of the plain string; for every accepted annotation Selector::offset and offset_with_mode in all four modes must be well-formed and re-resolve to the same range; states = (container, cursor pair) cases; non-trivial = containers below the resource level".into();
+    cov.rule = "for every text, every chain of parent ranges up to the nesting depth (each level every sub-range of the previous one) and every ordered pair of cursors (begin-aligned 0..len+2, end-aligned -(len+2)..+2, plus usize::MAX/2, isize::MIN, isize::MAX at depth <= 1): annotate (TextSelector at depth 0, AnnotationSelector with relative offset below), FindText::textselection and text_by_offset on the resource / on the sub-selection; accepted exactly when the resolved cursors satisfy 0 <= begin <= end <= len(container), then text = the codepoint slice of the plain string; for every accepted annotation Selector::offset and offset_with_mode in all four modes must be well-formed and re-resolve to the same range; through the text-selection API: for every container range and every range of the text in all four modes relative_offset exists exactly for embedded ranges, is well-formed, resolves inside the container to the same range and absolute_offset maps it back to resource coordinates; states = (container, cursor pair) cases + (container, range, mode) cases; non-trivial = containers below the resource level".into();
     cov.samples = vec![
         json!({"text": "\u{e9}\u{1d11e}x\u{e9}", "parents": [], "b": {"E": -3}, "e": {"B": 3}}),
         json!({"text": "ab cd", "parents": [[1, 4]], "b": {"B": 1}, "e": {"E": -1}}),
@@ -392,6 +481,11 @@ pub fn run(rep: &Reporter) -> Coverage {
 }
 
 pub fn replay(rep: &Reporter, case: &Value) {
+    if case.get("relative_api").is_some() {
+        println!("replay C04 relative API: {}", case["relative_api"]);
+        relative_api(rep, rep.tier);
+        return;
+    }
     let text = case["text"].as_str().unwrap_or("").to_string();
     let parents: Vec<(usize, usize)> = case["parents"]
         .as_array()
